@@ -52,25 +52,27 @@ def arms_of(stmts):
 
 
 def parse_offset(expr, base, axes_names):
-    """p0[X] +/- k*eps[X]  ->  (X, k) ; p0[X] -> (X, 0)"""
-    def is_base(e):
-        return isinstance(e, ast.Subscript) and ast.unparse(e.value) == base and ast.unparse(e.slice) in axes_names
-
-    def eps_term(e):
-        if isinstance(e, ast.Subscript) and ast.unparse(e.value) == 'eps':
-            return ast.unparse(e.slice), Fraction(1)
-        if isinstance(e, ast.BinOp) and isinstance(e.op, ast.Mult):
-            for c, x in ((e.left, e.right), (e.right, e.left)):
-                if isinstance(c, ast.Constant) and isinstance(c.value, (int, float)) and isinstance(x, ast.Subscript) and ast.unparse(x.value) == 'eps':
-                    return ast.unparse(x.slice), Fraction(str(c.value))
+    """pwork[X] = p0[X] + <combination of eps[...]>  ->  (X, Rat offset in the step atoms h_<axis>)
+    (the offset normally is k*h_X; a step taken from ANOTHER axis is kept as such and fails the moment conditions)"""
+    def index_hook(tr, e):
+        b = ast.unparse(e.value)
+        if b == 'eps':
+            return Rat.atom('h_' + ast.unparse(e.slice))
+        if b == base:
+            return Rat.atom('P_' + ast.unparse(e.slice))
         return None
-    if is_base(expr):
-        return ast.unparse(expr.slice), Fraction(0)
-    if isinstance(expr, ast.BinOp) and isinstance(expr.op, (ast.Add, ast.Sub)) and is_base(expr.left):
-        et = eps_term(expr.right)
-        if et and et[0] == ast.unparse(expr.left.slice):
-            return et[0], et[1] if isinstance(expr.op, ast.Add) else -et[1]
-    return None
+    try:
+        r = Translator({}, index_hook=index_hook).tr(expr)
+    except AlgebraError:
+        return None
+    ps = [a for a in r.atoms() if a.startswith('P_')]
+    if len(ps) != 1:
+        return None
+    ax = ps[0][2:]
+    off = r - Rat.atom(ps[0])
+    if any(a.startswith('P_') for a in off.atoms()) or ax not in axes_names:
+        return None
+    return ax, off
 
 
 def interpret_arm(seq, result_name, axes_names, f0_name=None):
@@ -109,7 +111,7 @@ def moment(samples, result, axes, powers, f0_name):
         v = Rat.const(1)
         for a, p in zip(axes, powers):
             if p:
-                v = v * ((Rat.const(off.get(a, Fraction(0))) * Rat.atom('h_' + a)) ** p)
+                v = v * (off.get(a, Rat.const(0)) ** p)
         env[name] = v
     if f0_name:
         env[f0_name] = Rat.const(1 if all(p == 0 for p in powers) else 0)
@@ -149,7 +151,7 @@ def check_stencils(rep, prog, m):
                     expect = 1 if pw == (1, 1) else 0
                 ok = val.equals(Rat.const(expect))
                 rep.ob('R-ALG', armname, ok, 'stencil applied to monomial x^%s gives %s, exact derivative is %d; samples at offsets %s'
-                       % (pw, val.canon(), expect, {k: {a: str(o) for a, o in v.items()} for k, v in samples.items()}), rel,
+                       % (pw, val.canon(), expect, {k: {a: o.canon() for a, o in v.items()} for k, v in samples.items()}), rel,
                        seq[0].lineno if seq else he.lineno, what='moment condition for monomial %s' % (pw,))
     rep.ob('R-EXH', 'hessian_elem arms', n_arms == 4, '%d stencil arms (central/one-sided x diagonal/mixed)' % n_arms, rel, he.lineno, what='four stencil arms')
     # returns element
@@ -182,7 +184,7 @@ def check_stencils(rep, prog, m):
             expect = 1 if p == 1 else 0
             ok = val.equals(Rat.const(expect))
             rep.ob('R-ALG', armname, ok, 'stencil applied to x^%d gives %s, exact derivative is %d; samples at offsets %s'
-                   % (p, val.canon(), expect, {k: {a: str(o) for a, o in v.items()} for k, v in samples.items()}), rel,
+                   % (p, val.canon(), expect, {k: {a: o.canon() for a, o in v.items()} for k, v in samples.items()}), rel,
                    seq[0].lineno, what='moment condition for monomial x^%d' % p)
     rep.ob('R-EXH', 'get_grad arms', n_arms == 3, '%d stencil arms' % n_arms, rel, gg.lineno, what='central, one-sided and optional 3-point arms')
     # arm selection: central only when the parameter is non-zero and not flagged one-sided (else the relative step is 0)
